@@ -9,6 +9,9 @@ for l in open(os.path.join(here, "properties.jsonl")):
     d = json.loads(l)
     if d["id"] == pid:
         prop = "%s: %s\n\n%s" % (d["id"], d["title"], d.get("statement", d.get("description", "")))
+        q = d.get("quantifier", {}).get("text")
+        if q:
+            prop += "\n\n(The property quantifies over: %s.)" % q
 done = []
 for m in sorted(glob.glob(os.path.join(here, "seeded", "*", "meta.json"))):
     md = json.load(open(m))
